@@ -463,6 +463,16 @@ func (env *Env) eval(x ast.Expr) Val {
 				b = env.adapt(b, a.T, x)
 			}
 		}
+		if x.Op == token.EQL || x.Op == token.NEQ {
+			// comparing an interface value with a concrete one: box the latter
+			_, ai := a.T.Underlying().(*types.Interface)
+			_, bi := b.T.Underlying().(*types.Interface)
+			if ai && !bi && !isUntypedNil(b.T) {
+				b = Val{T: a.T, C: []string{e.makeIface(b)}}
+			} else if bi && !ai && !isUntypedNil(a.T) {
+				a = Val{T: b.T, C: []string{e.makeIface(a)}}
+			}
+		}
 		e.specMath++
 		r := e.binop(x.Op, a, b, nil, "")
 		e.specMath--
@@ -648,6 +658,33 @@ func (env *Env) ghostField(sname, fname string) *GhostField {
 	return nil
 }
 
+// ifaceGhost: ghost fields attached to interface values (keyed by the
+// interface id); found by field name.
+func (env *Env) ifaceGhost(fname string) *GhostField {
+	for _, g := range env.e.db.Ghosts {
+		if g.Name == fname && env.e.isIfaceGhost(g) {
+			return g
+		}
+	}
+	return nil
+}
+
+func (e *Eng) isIfaceGhost(g *GhostField) bool {
+	i := strings.LastIndex(g.Struct, ".")
+	if i < 0 {
+		return false
+	}
+	for _, imp := range e.pkg.Pkg.Imports() {
+		if imp.Name() == g.Struct[:i] {
+			if o := imp.Scope().Lookup(g.Struct[i+1:]); o != nil {
+				_, ok := o.Type().Underlying().(*types.Interface)
+				return ok
+			}
+		}
+	}
+	return false
+}
+
 func (e *Eng) ghostType(g *GhostField) types.Type {
 	switch g.Type {
 	case "int":
@@ -690,6 +727,12 @@ func (env *Env) selectField(base Val, name string, x ast.Node) Val {
 		t = p.Elem()
 		ref = base.C[0]
 		isPtr = true
+	}
+	if _, isI := t.Underlying().(*types.Interface); isI && !isPtr {
+		if g := env.ifaceGhost(name); g != nil {
+			h := e.ghostHeap(g.Struct, g)
+			return Val{T: e.ghostType(g), C: []string{sx("select", e.heapTerm(env.st, h), base.C[0])}}
+		}
 	}
 	s, ok := t.Underlying().(*types.Struct)
 	if !ok {
@@ -838,6 +881,14 @@ func (env *Env) evalCall(x *ast.CallExpr) Val {
 			env.curKey = env.baseKey(bb)
 			env.noteOffset(x.Args[1], env.baseOff(bb))
 			return env.indexVal(bb, env.evalAs(x.Args[1], types.Typ[types.Int]), x)
+		case "arrayOf":
+			// the array holding the elements of a byte slice / string, as a stream
+			v := env.eval(x.Args[0])
+			if isStringType(v.T) {
+				return Val{T: tStream, C: []string{sx("select", e.strMem(), v.C[0])}}
+			}
+			h := e.memHeaps(types.Typ[types.Uint8])[0]
+			return Val{T: tStream, C: []string{sx("select", e.heapTerm(env.st, h), v.C[0])}}
 		case "memAt":
 			r := env.eval(x.Args[0])
 			i := env.evalAs(x.Args[1], types.Typ[types.Int])
